@@ -1040,6 +1040,11 @@ impl<S: BitmapSlice + Send + Sync> PassthroughFs<S> {
         )
     }
 
+    /// Verification hook: (entries, live entries) of the mount-fd registry (`MountFds`).
+    pub fn verif_mount_fds(&self) -> (usize, usize) {
+        self.mount_fds.verif_len()
+    }
+
     /// Verification hook: current lookup reference count of `inode`, if it is in the table.
     pub fn verif_refcount(&self, inode: Inode) -> Option<u64> {
         self.inode_map
